@@ -58,6 +58,16 @@ def variant_of(scn, variant, vseed):
     if variant.get("kw"):
         for coords in out["points"]:
             rng.shuffle(coords)
+    if variant.get("fresh"):
+        # every variable name reaches the library as a freshly built str object
+        out["fresh_names"] = True
+        for st in out["steps"]:
+            if "v" in st:
+                st["vfresh"] = True
+    elif variant.get("interned"):
+        out.pop("fresh_names", None)
+        for st in out["steps"]:
+            st.pop("vfresh", None)
     if variant.get("creation"):
         nodes = out["nodes"]
         n = len(nodes)
@@ -183,6 +193,10 @@ def configs_for(tier):
         elif j % 4 == 3:
             variant["kw"] = True
             variant["creation"] = "all"
+        if j % 8 in (1, 6):
+            variant["fresh"] = True
+        elif j % 8 in (3, 4):
+            variant["interned"] = True
         cfgs.append({"hashseed": hs, "variant": variant})
     return cfgs
 
@@ -195,7 +209,7 @@ def main(args, seed):
         return do_replay(args.replay)
     t0 = time.time()
     tier = args.tier
-    n_runs = args.runs or (4000 if tier == "quick" else 30000)
+    n_runs = args.runs or (3000 if tier == "quick" else 30000)
     cfgs = configs_for(tier)
     workers = args.workers or min(16, os.cpu_count() or 1)
     # every configuration executes the same run indices; slices keep all cores busy
@@ -256,8 +270,13 @@ def main(args, seed):
             known_hits += 1
             continue
         if status == "not-reproduced":
-            raise engine.HarnessError(f"digest mismatch for run {idx} did not reproduce in isolation: "
-                                      "the harness itself is nondeterministic")
+            # not reproducible from the scenario alone: does it reproduce in the context of the runs that
+            # preceded it in the same interpreter (process-global state accumulating across runs)?
+            start = (idx // slice_size) * slice_size
+            path = investigate_in_context(seed, start, idx, cfgs[0], cfgs[ci])
+            if path is None:
+                raise engine.HarnessError(f"digest mismatch for run {idx} reproduces neither in isolation nor "
+                                          "in context: the harness itself is nondeterministic")
         violations.append(path)
     wall = time.time() - t0
     n_orders = len(set(set_orders.values()))
@@ -327,9 +346,48 @@ def investigate(seed, idx, cfg_a, cfg_b, known):
     return path, "violation"
 
 
+def _slice_digest(seed, start, stop, cfg):
+    c = {"seed": seed, "start": start, "stop": stop, "variant": cfg["variant"], "dump": [stop - 1]}
+    r = collect(spawn(c, cfg["hashseed"]), 1800)
+    return r["digests"][-1], r.get("logs", {}).get(str(stop - 1), [])
+
+
+def investigate_in_context(seed, start, idx, cfg_a, cfg_b):
+    da, la = _slice_digest(seed, start, idx + 1, cfg_a)
+    db, lb = _slice_digest(seed, start, idx + 1, cfg_b)
+    if da == db:
+        return None
+    first = next((i for i, (x, y) in enumerate(zip(la, lb)) if x != y), None)
+    os.makedirs(os.path.join(VERIF, "replays"), exist_ok=True)
+    path = os.path.join(VERIF, "replays", f"{PROP}-{seed}-{idx}-context.json")
+    doc = {"property": PROP, "violation_class": "digest-differs-across-configurations-in-context", "mode": "slice",
+           "verif_seed": seed, "start": start, "run_index": idx,
+           "config_a": {"hashseed": cfg_a["hashseed"], "variant": cfg_a["variant"]},
+           "config_b": {"hashseed": cfg_b["hashseed"], "variant": cfg_b["variant"]},
+           "note": "reproduces only after the preceding runs of the same interpreter (process-global state); "
+                   "the replay re-executes runs start..run_index of the seeded battery in two fresh interpreters",
+           "first_differing_event": None if first is None else {"a": la[first], "b": lb[first]},
+           "how_to_replay": f"./check {PROP} --replay {path}"}
+    with open(path, "w") as f:
+        json.dump(doc, f, indent=1)
+    print(f"violation run={idx} (in the context of runs {start}..{idx}): hashseed={cfg_a['hashseed']} {cfg_a['variant']} vs "
+          f"hashseed={cfg_b['hashseed']} {cfg_b['variant']} disagree")
+    if first is not None:
+        print(f"  A: {la[first]}\n  B: {lb[first]}")
+    return path
+
+
 def do_replay(path):
     with open(path) as f:
         doc = json.load(f)
+    if doc.get("mode") == "slice":
+        da, la = _slice_digest(doc["verif_seed"], doc["start"], doc["run_index"] + 1, doc["config_a"])
+        db, lb = _slice_digest(doc["verif_seed"], doc["start"], doc["run_index"] + 1, doc["config_b"])
+        if da != db:
+            print(f"VIOLATION property={PROP} replay={path}")
+            return 1
+        print("replay did not reproduce a violation on the current tree")
+        return 0
     da, db, la, lb = run_pair(doc["scenario"], doc["config_a"], doc["config_b"])
     if da != db:
         first = next((i for i, (x, y) in enumerate(zip(la, lb)) if x != y), None)
